@@ -117,3 +117,11 @@ package rfc8888
 //@   ensures recorded_once: calls("add") == 1 && callarg("add", 0) == r.streams[ssrc] && callarg("add", 1) == ts && callarg("add", 2) == seq && callarg("add", 3) == ecn
 //@   ensures existing_stream_kept: washas(r.streams, ssrc) ==> r.streams[ssrc] == wasat(r.streams, ssrc)
 //@   ensures other_streams_untouched: forall s uint32 :: s != ssrc ==> has(r.streams, s) == washas(r.streams, s) && r.streams[s] == wasat(r.streams, s)
+//@
+//@ # ---- interceptor glue (properties C01, C02): the RTP reader is transparent and hands each successfully read packet to the recorder loop once
+//@ func (*SenderInterceptor).BindRemoteStream$1
+//@   modifies *
+//@   ensures read_once: calls("reader.Read") == 1 && callarg("reader.Read", 0) == b && callarg("reader.Read", 1) == a
+//@   ensures read_error_returned: callres("reader.Read", 2) != nil ==> result0 == 0 && result2 == callres("reader.Read", 2)
+//@   ensures same_length: result2 == nil ==> result0 == callres("reader.Read", 0)
+//@   ensures queued_once: calls("send") <= 1 && (callres("reader.Read", 2) != nil ==> calls("send") == 0)
